@@ -3,10 +3,12 @@
    outcome list, its book status only moves forward, and once it is resolved its whole record (status, winners,
    resolution time, start/end) never changes again (C07_resolution_final, C07_identity); in every state updates and
    second resolutions of a resolved market are rejected; a transaction naming one market leaves the others untouched.
-   "Winner is one of the market's outcomes" and "at least two distinct outcomes" are checked at the handler
-   (market_resolve / market_add guards, transcribed) and per run by the monitor. *)
+   C07_lifecycle (Proofs/Lifecycle.v), for every market of every reachable state of every history: at least two distinct outcomes;
+   status active/inactive or one of the three resolutions; a declared market has exactly one winner and it is one of the market's own
+   outcomes; no bet of an unresolved market is settled; every settled bet carries the result its outcome has under the market's
+   resolution (refunded on cancel/abort, won iff its outcome is the winner) -- and that resolution is final (C07_resolution_final). *)
 From Coq Require Import ZArith Bool List.
-From Sge Require Import Lib.Dec Model.Types Model.Orderbook Model.Mint Model.Chain Proofs.MarketFacts Proofs.Custody Proofs.Mono.
+From Sge Require Import Lib.Dec Model.Types Model.Orderbook Model.Mint Model.Chain Proofs.MarketFacts Proofs.Custody Proofs.Mono Proofs.Local Proofs.Settle Proofs.Lifecycle.
 Open Scope Z_scope.
 
 Theorem C07_resolution_final : forall bk supply P vault MP t0 sw sd,
@@ -39,3 +41,16 @@ Theorem C07_other_markets_untouched : forall s o m',
   o <> OEnd -> (forall m, op_market o = Some m -> m' <> m) -> get_ms (fst (step s o)) m' = get_ms s m'.
 Proof. exact tx_market_frame. Qed.
 Print Assumptions C07_other_markets_untouched.
+
+Theorem C07_lifecycle : forall P bk supply vault MP t0 sw sd ops,
+  pr_bet_fee P <= pr_bet_min P -> 0 <= pr_bet_fee P ->
+  bget bk POOL = 0 -> bget bk HOUSEFEE = 0 -> bget bk BETFEE = 0 -> Forall valid_op ops ->
+  forall m x, get_ms (run (init bk supply P vault MP t0 sw sd) ops) m = Some x ->
+  2 <= zlen (k_odds (ms_mkt x)) /\ zdistinct (k_odds (ms_mkt x)) = true /\
+  (status_AI (k_status (ms_mkt x)) \/ status_res (k_status (ms_mkt x))) /\
+  (k_status (ms_mkt x) = MK_DECLARED -> exists w, k_winners (ms_mkt x) = (w :: nil) /\ In w (k_odds (ms_mkt x))) /\
+  (status_AI (k_status (ms_mkt x)) -> forall b, In b (ms_bets x) -> b_status b <> BS_SETTLED) /\
+  (forall b, In b (ms_bets x) -> b_status b = BS_SETTLED ->
+     status_res (k_status (ms_mkt x)) /\ b_result b = result_of (ms_mkt x) b).
+Proof. exact lifecycle_over_histories. Qed.
+Print Assumptions C07_lifecycle.
